@@ -30,6 +30,19 @@ impl Outcome {
     }
 }
 
+/// The expected result of a frame as the `reset` events carry it.  A frame whose bytes are not
+/// valid UTF-8 is not a JSON document, so its result is a decoding error; serde_json (the decoder
+/// zlink uses) does not look inside content the requested shape ignores, so what decoding that
+/// frame alone with the same decoder gives is tolerated as the alternative (`acls`/`acanon`).
+/// For every valid UTF-8 frame both are the isolated decode.
+pub fn expected_fields(o: &Outcome, frame: &[u8]) -> serde_json::Value {
+    if std::str::from_utf8(frame).is_ok() {
+        serde_json::json!({"cls": o.cls, "canon": o.canon, "acls": o.cls, "acanon": o.canon})
+    } else {
+        serde_json::json!({"cls": "decode_err", "canon": "", "acls": o.cls, "acanon": o.canon})
+    }
+}
+
 // ---------------------------------------------------------------- call targets
 
 #[derive(Debug, Serialize, Deserialize, PartialEq)]
